@@ -209,7 +209,7 @@ func (e *Explorer) Run(K int) (completed int) {
 }
 
 func isDeviation(label string) bool {
-	return label[0] != 'D' && label[0] != 'T' && label[0] != 'P'
+	return label[0] != 'D' && label[0] != 'T' && label[0] != 'P' && label[0] != 'W'
 }
 
 func (e *Explorer) runNode(n node) {
